@@ -144,7 +144,119 @@ def color_writes(p):
             i = e["place"][1][2][1]
             if i[0] == "const":
                 out[i[1]] = e["val"]
+            else:
+                out["?"] = "store at a computed index"
+        elif e["k"] == "call" and (e["callee"] or "").endswith("copy_from_slice") and len(e["args"]) == 2:
+            # whole-vector copy from a byte array: channel i = array[i]
+            dst = strip_refs(e["args"][0])
+            src = strip_refs(e["args"][1])
+            while src[0] == "cast":
+                src = strip_refs(src[1])
+            if dst[0] == "call" and dst[1].rsplit("::", 1)[-1] in ("deref_mut", "as_mut_slice", "as_mut") and (src[0] in ("call", "agg", "var")):
+                for i in range(4):
+                    out[i] = src[4][i] if (src[0] == "agg" and len(src[4]) == 4) else ("index", src, ("const", i, "usize"))
+            else:
+                out["?"] = "bulk copy into part of the colour vector"
+        elif e["k"] == "call" and e["args"] and e["args"][0][0] == "ref" and e["args"][0][2] and (e["callee"] or "").rsplit("::", 1)[-1] in (
+                "extend_from_slice", "push", "fill", "swap", "reverse", "clone_from_slice", "iter_mut"):
+            out["?"] = "colour vector changed by %s" % (e["callee"] or "").rsplit("::", 1)[-1]
     return out
+
+
+def eval_channel(facts, t, valparam, v):
+    """Value of a pure channel expression at pixel value v (used when the expression is not in bit-field form:
+    the domain of a 16-bit or 8-bit format is small enough to compare exhaustively)."""
+    tag = t[0]
+    if tag in ("ref", "deref"):
+        return eval_channel(facts, t[1], valparam, v)
+    if tag == "param":
+        if t[1] == valparam:
+            return v
+        raise NotBits("parameter %s" % t[2])
+    if tag == "const":
+        if isinstance(t[1], bool):
+            return int(t[1])
+        if isinstance(t[1], int):
+            return t[1]
+        raise NotBits("constant " + fmt(t)[:30])
+    if tag == "cast":
+        x = eval_channel(facts, t[1], valparam, v)
+        bits = {"u8": 8, "u16": 16, "u32": 32, "u64": 64, "usize": 64}.get(t[2])
+        if bits is None:
+            raise NotBits("cast to " + str(t[2]))
+        return x & ((1 << bits) - 1)
+    if tag == "field" and t[1][0] == "bin" and t[1][1].endswith("WithOverflow") and t[3] == 0:
+        return eval_channel(facts, ("bin", t[1][1].replace("WithOverflow", ""), t[1][2], t[1][3], t[1][4] if len(t[1]) > 4 else None), valparam, v)
+    if tag == "bin":
+        a = eval_channel(facts, t[2], valparam, v)
+        b = eval_channel(facts, t[3], valparam, v)
+        op = t[1].replace("Unchecked", "")
+        bits = {"u8": 8, "u16": 16, "u32": 32, "u64": 64, "usize": 64}.get(t[4] if len(t) > 4 else None, 64)
+        m = (1 << bits) - 1
+        if op in ("Add", "Sub", "Mul"):
+            r = a + b if op == "Add" else (a - b if op == "Sub" else a * b)
+            if r < 0 or r > m:
+                raise NotBits("overflow")
+            return r
+        if op == "Shl":
+            return (a << b) & m
+        if op == "Shr":
+            return a >> b
+        if op == "BitAnd":
+            return a & b
+        if op == "BitOr":
+            return a | b
+        if op == "BitXor":
+            return a ^ b
+        if op == "Div" and b:
+            return a // b
+        if op == "Rem" and b:
+            return a % b
+        raise NotBits("operator " + op)
+    if tag == "index":
+        i = eval_channel(facts, t[2], valparam, v)
+        base = strip_refs(t[1])
+        names = [x[1] for x in walk(base) if x[0] == "const" and isinstance(x[1], str) and x[1].startswith("static:")]
+        if names:
+            tb = static_bytes(facts, names[0][len("static:"):])
+            if tb is None or not (0 <= i < len(tb)):
+                raise NotBits("table index")
+            return tb[i]
+        if base[0] == "call" and len(base[2]) == 1:
+            import re
+            mm = re.search(r"<impl (u16|u32|u64)>::to_(be|le)_bytes$", base[1])
+            if mm:
+                n = {"u16": 2, "u32": 4, "u64": 8}[mm.group(1)]
+                x = eval_channel(facts, base[2][0], valparam, v)
+                lo = 8 * (n - 1 - i) if mm.group(2) == "be" else 8 * i
+                return (x >> lo) & 0xFF
+    if tag == "call" and len(t[2]) == 1 and t[1].endswith("::from"):
+        return eval_channel(facts, t[2][0], valparam, v)
+    raise NotBits("term " + fmt(t)[:60])
+
+
+def spec_value(facts, want, v):
+    def bits(pl, x):
+        r = 0
+        for (s, b, sl, w, dl) in pl:
+            r |= ((x >> sl) & ((1 << w) - 1)) << dl
+        return r
+    if want[0] == "bits":
+        return (bits(want[1], v) | want[2]) & 0xFF
+    if want[0] == "tbl":
+        tb = static_bytes(facts, "mila::texture_decoder::" + want[1])
+        return tb[bits(want[2], v)]
+    raise NotBits("spec")
+
+
+def exhaustive_channel(facts, w, want, valparam, vbits):
+    """None when the expression equals the specified layout on every pixel value; else a witness string."""
+    for v in range(1 << vbits):
+        g = eval_channel(facts, w, valparam, v)
+        e = spec_value(facts, want, v)
+        if (g & 0xFF) != e:
+            return "pixel value %#x gives %d, hardware layout %s gives %d" % (v, g & 0xFF, fmt_ch(want), e)
+    return None
 
 
 def channels_3ds(facts, rep, R1):
@@ -188,6 +300,7 @@ def channels_3ds(facts, rep, R1):
             cname = "RGBA"[ci]
             got = None
             bad = None
+            unknown = None
             if want[0] == "bit":
                 # two branches on the bit: 255 when set, 0 when clear
                 vals = {}
@@ -203,19 +316,34 @@ def channels_3ds(facts, rep, R1):
                         bad = "alpha = %s" % {k: fmt(v) for k, v in vals.items()}
             else:
                 for p, ab in lst:
-                    w = color_writes(p).get(ci)
+                    cw = color_writes(p)
+                    w = cw.get(ci)
                     if w is None:
-                        bad = "channel never written"
+                        if "?" in cw:
+                            unknown = cw["?"]
+                        else:
+                            bad = "channel never written"
                         continue
                     try:
                         g = channel(w, vparam, vbits)
                     except NotBits as e:
-                        bad = "not a bit-field expression (%s)" % e
+                        # not in shift/mask form: decide by comparing on the whole (small) value domain
+                        if vbits <= 16:
+                            try:
+                                wit = exhaustive_channel(facts, w, want, vparam, vbits)
+                                if wit:
+                                    bad = wit
+                                continue
+                            except NotBits as e2:
+                                e = e2
+                        unknown = "not a bit-field expression (%s)" % e
                         continue
                     if g != want:
                         bad = "%s, hardware layout %s" % (fmt_ch(g), fmt_ch(want))
             if bad:
                 rep.violation(R1, b.name, "channel:%s:%s" % (name, cname), "%s channel %s: %s" % (name, cname, bad), where)
+            elif unknown:
+                rep.inconc(R1, "%s channel %s: %s" % (name, cname, unknown))
             else:
                 rep.ok(R1, {"format": name, "channel": cname, "layout": fmt_ch(want)})
 
@@ -563,32 +691,61 @@ def tile_walk(facts, rep, R7):
                             return "TX" if strip_refs(hi[2]) == W else ("TY" if strip_refs(hi[2]) == H else "?")
             return None
 
+        def deep(t, depth=0):
+            """the term with named single-definition locals expanded (bounded)"""
+            if not isinstance(t, tuple) or not t or depth > 6:
+                return t
+            if t[0] == "local" and len(nv.defs().get(t[1], [])) == 1:
+                return deep(nv.definition(t[1]), depth + 1)
+            return tuple(deep(x, depth + 1) if isinstance(x, tuple) else x for x in t)
+
+        def tile_derived(t):
+            return any(y[0] == "const" and isinstance(y[1], str) and y[1].endswith("TILE_ORDER") for y in walk(deep(t)))
+
+        def is_tile_value(t):
+            """t denotes the TILE_ORDER entry of this pixel (an element, possibly widened), not arithmetic on it"""
+            t = deep(t)
+            while t[0] in ("cast", "ref", "deref") or (t[0] == "call" and t[1].endswith("::from") and len(t[2]) == 1):
+                t = t[1] if t[0] != "call" else t[2][0]
+            if t[0] == "bin":
+                return False
+            return tile_derived(t)
+
         def classify(atom):
             a = atom
             if a == norm(W):
                 return "W"
             if a == norm(H):
                 return "H"
-            if a[0] == "local":
-                d = nv.definition(a[1]) if len(nv.defs().get(a[1], [])) == 1 else None
-                if d is not None:
-                    r = loop_role(d)
-                    if r:
-                        return r
-                    dd = d
-                    while dd[0] == "cast":
-                        dd = dd[1]
-                    if dd[0] == "bin" and dd[1] == "Rem" and dd[3][0] == "const" and dd[3][1] == 8 and any(y[0] == "const" and isinstance(y[1], str) and y[1].endswith("TILE_ORDER") for y in walk(dd)):
-                        return "X"
-                    if dd[0] == "bin" and dd[1] == "Div" and dd[3][0] == "const" and dd[3][1] == 8 and any(y[0] == "const" and isinstance(y[1], str) and y[1].endswith("TILE_ORDER") for y in walk(dd)):
-                        return "Y"
+            r = loop_role(deep(a)) if a[0] == "local" and len(nv.defs().get(a[1], [])) == 1 and not tile_derived(a) else None
+            if r:
+                return r
+            dd = deep(a)
+            while dd[0] == "cast":
+                dd = dd[1]
+            if dd[0] == "bin" and dd[1] in ("Rem", "Div") and dd[3][0] == "const" and tile_derived(dd[2]):
+                k = dd[3][1]
+                num = dd[2]
+                while num[0] == "cast":
+                    num = num[1]
+                if dd[1] == "Rem" and is_tile_value(num):
+                    return "X" if k == 8 else "T%%%d" % k
+                if dd[1] == "Div":
+                    if is_tile_value(num):
+                        return "Y" if k == 8 else "T/%d" % k
+                    # (T - T % 8) / 8
+                    if num[0] == "bin" and num[1].startswith("Sub") and is_tile_value(num[2]):
+                        sub = num[3]
+                        while sub[0] == "cast":
+                            sub = sub[1]
+                        sub = deep(sub)
+                        while sub[0] == "cast":
+                            sub = sub[1]
+                        if sub[0] == "bin" and sub[1] == "Rem" and sub[3][0] == "const" and sub[3][1] == k and is_tile_value(sub[2]):
+                            return "Y" if k == 8 else "T/%d" % k
             r = loop_role(a)
             if r:
                 return r
-            if a[0] == "bin" and a[1] == "Rem":
-                return "X"
-            if a[0] == "bin" and a[1] == "Div":
-                return "Y"
             return "?" + fmt(a)[:30]
         target = None
         for bb, t in nv.calls():
@@ -611,6 +768,8 @@ def tile_walk(facts, rep, R7):
                 want = {("X",): 4, ("TX",): 32, ("W", "Y"): 4, ("TY", "W"): 32}
                 if got == want:
                     rep.ok(R7, {"fn": b.name, "index": "4*(8*tile_x + x + (8*tile_y + y)*width)"})
+                elif any(a.startswith("?") for k in got for a in k):
+                    rep.inconc(R7, "tile-walk index has terms that are not recognised: %s" % {"*".join(k) or "1": v for k, v in sorted(got.items())})
                 else:
                     rep.violation(R7, b.name, "tile-index", "pixel (x,y) of tile (tile_x,tile_y) is stored at %s; the 8x8 tiled layout puts it at 4*(8*tile_x + x + (8*tile_y + y)*width)" % {"*".join(k) or "1": v for k, v in sorted(got.items())}, where)
     # ---- ETC1: 8x8 tiles of 2x2 blocks of 4x4 pixels -----------------------------------------------
@@ -688,94 +847,320 @@ def classify_named(nv, a, roles, Wp):
 
 
 def etc_selection(facts, rep, R5):
+    """Which sub-block a pixel of a 4x4 ETC1 block takes its base colour and its modifier table from, how the
+    modifier is signed, and how the sum is clamped -- read off the *paths* of one iteration of the innermost
+    pixel loop (layout independent: nested ifs, a hoisted boolean, tuples, helper functions all give the same
+    table of (flip, x<2, y<2) -> (table, colour))."""
     b = facts.body(ETC)
     if b is None:
         rep.inconc(R5, "etc1::decode not found")
         return
     where = "%s:%s" % (b.file, b.line)
-    from flow import guards, control_deps
-    cd = control_deps(b)
+    from binser import for_loops
+    loops = [lp for lp in for_loops(b) if lp["kind"] == "for"]
+    if not loops:
+        rep.inconc(R5, "no pixel loops found in etc1::decode")
+        return
+    depth = lambda lp: len([l2 for l2 in loops if lp["head"] in l2["blocks"]])
+    inner = max(loops, key=depth)
+    outer = [lp for lp in loops if inner["head"] in lp["blocks"] and lp is not inner]
+    outer_y = max(outer, key=depth) if outer else None
+    # the Some arm of the inner loop's next()
+    nb = inner["next_bb"]
+    sw = b.blocks[nb]["term"]["t"]
+    swt = b.blocks[sw]["term"]
+    if swt["k"] != "switch":
+        rep.inconc(R5, "inner pixel loop: no switch after next()")
+        return
+    some = [tb for v, tb in swt["targets"] if v == 1]
+    if not some:
+        rep.inconc(R5, "inner pixel loop: Some arm not found")
+        return
+    env0 = {b.blocks[nb]["term"]["dest"]["l"]: ("call", "ETC::next_x", (), nb, "ETC::next_x")}
+    try:
+        paths = enum_paths(b, start=some[0], env0=env0, max_paths=3000)
+    except PathLimit:
+        rep.inconc(R5, "inner pixel loop has too many paths")
+        return
+    T1, T2 = ETC_OFFSETS["ETC_TABLE1_OFFSET"], ETC_OFFSETS["ETC_TABLE2_OFFSET"]
+    C1 = {ETC_OFFSETS[k] for k in ETC_OFFSETS if "1_OFFSET" in k and "TABLE" not in k}
+    C2 = {ETC_OFFSETS[k] for k in ETC_OFFSETS if "2_OFFSET" in k and "TABLE" not in k}
+    FLIP = ETC_OFFSETS["ETC_ORIENTATION_BIT"]
 
-    def conds_of(bi):
-        out = []
-        for (a, s, c) in guards(b, bi, cd):
-            ct = cond_truth(c)
-            if not ct:
-                continue
-            t0 = ct[0]
-            if t0[0] == "bin" and t0[1] == "Lt" and t0[3][0] == "const" and t0[3][1] == 2:
-                # which coordinate: the innermost (x) or the outer (y) 0..4 loop counter
-                out.append(("Lt(%s, 2)" % coord_name(b, t0[2]), ct[1]))
-            elif (t0[0] == "var" and b.local_ty(t0[1]) == "bool") or (t0[0] == "bin" and t0[1] == "Eq" and any(x[0] == "bin" and x[1] == "Shr" for x in walk(t0))):
-                out.append(("flip", ct[1]))
-        return tuple(sorted(set(out)))
+    def expand(t, depth=0):
+        """replace out-of-loop single-definition variables by their definitions"""
+        if not isinstance(t, tuple) or not t or depth > 12:
+            return t
+        if t[0] == "var" and len(b.defs().get(t[1], [])) == 1 and not b.partial_writes().get(t[1]):
+            d = b.term_of_local(t[1])
+            return d if d[0] == "var" else expand(d, depth + 1)
+        return tuple(expand(x, depth + 1) if isinstance(x, tuple) else x for x in t)
 
-    def leaves(l, depth=0):
-        rows = []
+    def consts(t):
+        return set(x[1] for x in walk(t) if x[0] == "const" and isinstance(x[1], int) and not isinstance(x[1], bool))
+
+    foot_cache = {}
+    nvw = b.named_view()
+
+    def footprint(l, proj=None, depth=0):
+        """ETC colour offsets the contents of colour container `l` are computed from."""
+        key = (l, proj)
+        if key in foot_cache:
+            return foot_cache[key]
+        foot_cache[key] = set()
+        out = set()
         for (bi, si, kind, payload) in b.defs().get(l, []):
             if kind != "assign":
+                out |= consts(expand(b.term_of_call(payload, bi)))
                 continue
             rv = payload["rv"]
-            if rv["k"] in ("use", "ref"):
+            if rv["k"] == "agg" and proj is not None and proj < len(rv["fields"]):
+                out |= opfoot(rv["fields"][proj], depth)
+            elif rv["k"] == "agg":
+                for f in rv["fields"]:
+                    out |= opfoot(f, depth)
+            elif rv["k"] in ("use", "ref"):
                 pl = rv.get("place") or rv["a"].get("c") or rv["a"].get("m")
-                if pl is not None:
-                    base = pl["l"]
-                    if pl["p"] in ([], ["deref"]) and len(b.defs().get(base, [])) >= 2 and depth < 4 and base != l:
-                        for (c2, leaf) in leaves(base, depth + 1):
-                            rows.append((tuple(sorted(set(conds_of(bi)) | set(c2))), leaf))
-                        continue
-            leaf = b.term_of_rvalue(rv)
-            if rv["k"] in ("use", "ref"):
-                pl = rv.get("place") or rv["a"].get("c") or rv["a"].get("m")
-                if pl is not None and pl["p"] in ([], ["deref"]) and len(b.defs().get(pl["l"], [])) == 1 and b.local_ty(pl["l"]).startswith("std::vec::Vec<"):
-                    leaf = ("var", pl["l"], b.local_name(pl["l"]))
-            rows.append((conds_of(bi), leaf))
-        return rows
-    sel = {}
-    for l in range(len(b.locals)):
-        ty = b.local_ty(l)
-        if ty in ("&std::vec::Vec<i32>", "&std::vec::Vec<u8>") and b.local_name(l) and len(b.defs().get(l, [])) >= 2:
-            sel[ty] = leaves(l)
-
-    def ident(t):
-        # table1/table2 differ by the shift constant of their index; colour vectors by their allocation
-        ks = sorted(set(x[1] for x in walk(t) if x[0] == "const" and isinstance(x[1], int) and x[1] in (ETC_OFFSETS["ETC_TABLE1_OFFSET"], ETC_OFFSETS["ETC_TABLE2_OFFSET"])))
-        if ks:
-            return 1 if ks == [ETC_OFFSETS["ETC_TABLE1_OFFSET"]] else 2
-        vs = sorted(set(x[1] for x in walk(t) if x[0] == "var"))
-        return ("vec", vs[0]) if vs else fmt(norm(t))[:40]
-    if len(sel) != 2 or any(len(v) != 4 for v in sel.values()):
-        rep.inconc(R5, "sub-block selection not recognised (%s)" % {k: len(v) for k, v in sel.items()})
-    else:
-        t_rows = sorted((c, ident(s_)) for c, s_ in sel["&std::vec::Vec<i32>"])
-        c_raw = sorted(((c, ident(s_)) for c, s_ in sel["&std::vec::Vec<u8>"]), key=lambda r: (r[0], str(r[1])))
-        vecs = sorted(set(r[1] for r in c_raw), key=str)
-        cmap = {v: i + 1 for i, v in enumerate(vecs)}   # colour vector allocated first = sub-block 1
-        c_rows = sorted((c, cmap[v]) for c, v in c_raw)
-        if t_rows == c_rows and set(r[1] for r in t_rows) == {1, 2}:
-            rep.ok(R5, {"selection_rows": [("%s" % (list(c),), w) for c, w in t_rows], "table_and_colour_agree": True})
-            good = True
-            for conds, wsel in t_rows:
-                d = dict(conds)
-                flip = d.get("flip")
-                key = "Lt(y, 2)" if flip else "Lt(x, 2)"
-                if key not in d or (d[key] and wsel != 1) or (not d[key] and wsel != 2):
-                    good = False
-            if good:
-                rep.ok(R5, {"rule": "flip set: rows 0-1 -> sub-block 1; flip clear: columns 0-1 -> sub-block 1"})
+                if pl is None:
+                    continue
+                out |= placefoot(pl, depth)
             else:
-                rep.violation(R5, b.name, "halves", "sub-block split does not follow the ETC1 flip rule: %s" % (t_rows,), where)
+                out |= consts(expand(b.term_of_rvalue(rv)))
+        for (bi, si, st) in b.partial_writes().get(l, []):
+            if isinstance(st, dict) and st.get("k") == "assign":
+                out |= consts(expand(b.term_of_rvalue(st["rv"])))
+        # element stores through index_mut(&mut l, i)
+        for bi, si, st in b.stmts():
+            if st["k"] == "assign" and st["lhs"]["p"] == ["deref"]:
+                tt = nvw.term_of_local(st["lhs"]["l"])
+                if tt[0] == "call" and tt[1].endswith("index_mut") and tt[2]:
+                    r = strip_refs(tt[2][0])
+                    if r[0] in ("var", "local") and r[1] == l:
+                        out |= consts(expand(b.term_of_rvalue(st["rv"])))
+        foot_cache[key] = out
+        return out
+
+    def placefoot(pl, depth):
+        if depth > 6:
+            return set()
+        pr = [e for e in pl["p"] if e != "deref"]
+        if not pr:
+            return footprint(pl["l"], None, depth + 1)
+        if len(pr) == 1 and isinstance(pr[0], dict) and "f" in pr[0]:
+            return footprint(pl["l"], pr[0]["f"], depth + 1)
+        return footprint(pl["l"], None, depth + 1)
+
+    def opfoot(op, depth):
+        pl = op.get("c") or op.get("m")
+        if pl is None:
+            return set()
+        return placefoot(pl, depth)
+
+    def colour_id(t):
+        """1 / 2 for a term denoting one of the two base-colour containers."""
+        t = strip_refs(t)
+        while t[0] in ("call",) and t[2] and t[1].rsplit("::", 1)[-1] in ("deref", "index", "as_slice", "borrow", "as_ref"):
+            t = strip_refs(t[2][0])
+        if t[0] == "var":
+            f = footprint(t[1])
+        elif t[0] == "field" and strip_refs(t[1])[0] == "var":
+            f = footprint(strip_refs(t[1])[1], t[3])
         else:
-            rep.violation(R5, b.name, "selection", "modifier table is chosen by %s but base colour by %s" % (t_rows, c_rows), where)
-    # sign negates, clamp to [0,255]
-    neg = any(s["k"] == "assign" and s["rv"]["k"] == "un" and s["rv"]["op"] == "Neg" for bi, si, s in b.stmts())
-    clamps = [(callee_names(t)[1] or "").rsplit("::", 1)[-1] for bb, t in b.calls()]
-    mins = [b.term_of_operand(t["args"][1]) for bb, t in b.calls() if (callee_names(t)[1] or "").endswith("Ord::min")]
-    maxs = [b.term_of_operand(t["args"][1]) for bb, t in b.calls() if (callee_names(t)[1] or "").endswith("Ord::max")]
-    if neg and len(mins) >= 3 and len(maxs) >= 3 and all(m == ("const", 255, "i32") for m in mins) and all(m == ("const", 0, "i32") for m in maxs):
-        rep.ok(R5, {"modifier": "negated on the sign bit; result clamped to [0, 255]"})
+            f = consts(expand(t))
+        if f & C2:
+            return 2
+        if f & C1:
+            return 1
+        return None
+
+    def table_id(t):
+        ks = consts(expand(t)) & {T1, T2}
+        if ks == {T1}:
+            return 1
+        if ks == {T2}:
+            return 2
+        return None
+
+    def coord(t):
+        t = expand(strip_refs(t))
+        names = set()
+        for x in walk(t):
+            if x[0] == "call" and x[1] == "ETC::next_x":
+                names.add("x")
+            elif x[0] == "call" and x[1].endswith("::next") and len(x) > 3 and outer_y is not None and x[3] == outer_y.get("next_bb"):
+                names.add("y")
+            elif x[0] == "var" and outer_y is not None:
+                # the y counter is assigned once per outer iteration from next()'s payload
+                for (bi, si, kind, payload) in b.defs().get(x[1], []):
+                    if kind == "assign":
+                        d = b.term_of_rvalue(payload["rv"])
+                        if any(y[0] == "call" and y[1].endswith("::next") and len(y) > 3 and y[3] == outer_y.get("next_bb") for y in walk(d)):
+                            names.add("y")
+        return names
+
+    def classify_cond(term):
+        """('flip'|'x<2'|'y<2'|'sign'|'bounds'|None, polarity flip)"""
+        t = expand(term)
+        while t[0] == "cast":
+            t = t[1]
+        if t[0] == "bin" and t[1] in ("Lt", "Ge", "Le", "Gt") and t[3][0] == "const" and isinstance(t[3][1], int):
+            cs = coord(t[2])
+            k = t[3][1]
+            if len(cs) == 1 and not any(x[0] == "bin" and x[1].startswith(("Add", "Mul")) for x in walk(expand(strip_refs(t[2])))):
+                c = next(iter(cs))
+                if (t[1], k) == ("Lt", 2):
+                    return (c + "<2", False)
+                if (t[1], k) == ("Ge", 2):
+                    return (c + "<2", True)
+                if (t[1], k) == ("Le", 1):
+                    return (c + "<2", False)
+                if (t[1], k) == ("Gt", 1):
+                    return (c + "<2", True)
+                return ("other", False)
+        ks = consts(t)
+        shr = [x for x in walk(t) if x[0] == "bin" and x[1] == "Shr"]
+        if FLIP in ks and shr and not coord(t):
+            # (pixels >> 32) & 1 == 1  /  != 0
+            if t[0] == "bin" and t[1] in ("Eq", "Ne") and t[3][0] == "const":
+                pos = (t[1] == "Eq") == (t[3][1] == 1)
+                return ("flip", not pos)
+            return ("flip?", False)
+        if shr and 16 in ks and coord(t):
+            if t[0] == "bin" and t[1] in ("Eq", "Ne") and t[3][0] == "const":
+                pos = (t[1] == "Eq") == (t[3][1] == 1)
+                return ("sign", not pos)
+            return ("sign?", False)
+        return (None, False)
+
+    rows = {}
+    unknown = []
+    n_iter = 0
+    for p in paths:
+        if p.end != "loop" or not (set(p.blocks) <= set(inner["blocks"])):
+            continue
+        stores = []
+        for e in p.events:
+            if e["k"] != "write":
+                continue
+            pl = e["place"]
+            if pl[0] == "deref" and pl[1][0] == "call" and pl[1][1].endswith("index_mut"):
+                stores.append((pl[1][2][1] if len(pl[1][2]) > 1 else None, e["val"]))
+            elif pl[0] == "index":
+                stores.append((pl[2], e["val"]))
+        if len(stores) < 4:
+            continue          # the `continue` path of out-of-image pixels
+        n_iter += 1
+        d = {}
+        for (bb, term, vals, neg, dty) in p.conds:
+            kind, flipped = classify_cond(term)
+            if kind is None or kind == "other":
+                continue
+            if kind.endswith("?"):
+                unknown.append("condition on %s not decoded: %s" % (kind[:-1], fmt(term)[:60]))
+                continue
+            # truth of the tested term on this arm
+            if dty == "bool":
+                truth = (vals == (0,) and neg) or (vals == (1,) and not neg)
+            else:
+                continue
+            d[kind] = truth != flipped
+        # the three colour channels: first three stores in address order
+        for (addr, val) in stores[:3]:
+            v = val
+            while v[0] == "cast":
+                v = v[1]
+            tids = set()
+            cids = set()
+            negs = 0
+            for x in walk(v):
+                if x[0] == "call" and x[1].rsplit("::", 1)[-1] == "index" and x[2]:
+                    ti = table_id(x)
+                    if ti:
+                        tids.add(ti)
+                    else:
+                        ci = colour_id(x[2][0])
+                        if ci:
+                            cids.add(ci)
+                elif x[0] == "index":
+                    ci = colour_id(x[1])
+                    if ci:
+                        cids.add(ci)
+                if x[0] == "un" and x[1] == "Neg":
+                    negs += 1
+            key = (d.get("flip"), d.get("x<2"), d.get("y<2"), d.get("sign"))
+            rows.setdefault(key, set()).add((tuple(sorted(tids)), tuple(sorted(cids)), negs))
+    if unknown:
+        rep.inconc(R5, unknown[0])
+        return
+    if n_iter == 0 or not rows:
+        rep.inconc(R5, "no complete pixel iteration found among %d path(s)" % len(paths))
+        return
+    bad_sel, bad_agree, bad_sign, undecided = [], [], [], []
+    for (flip, xl, yl, sign), vals in sorted(rows.items(), key=str):
+        for (tids, cids, negs) in vals:
+            if len(tids) != 1 or len(cids) != 1:
+                undecided.append(((flip, xl, yl), tids, cids))
+                continue
+            if tids[0] != cids[0]:
+                bad_agree.append(((flip, xl, yl), tids[0], cids[0]))
+            if flip is None:
+                undecided.append(((flip, xl, yl), tids, cids))
+                continue
+            dec = yl if flip else xl
+            if dec is None:
+                undecided.append(((flip, xl, yl), tids, cids))
+                continue
+            want = 1 if dec else 2
+            if tids[0] != want:
+                bad_sel.append(((flip, xl, yl), tids[0], want))
+            if sign is None:
+                undecided.append(("sign", negs))
+            elif (negs > 0) != bool(sign):
+                bad_sign.append((sign, negs))
+    if bad_agree:
+        rep.violation(R5, b.name, "selection", "modifier table and base colour come from different sub-blocks for (flip, x<2, y<2) = %s: table %s, colour %s" % bad_agree[0], where)
+    elif bad_sel:
+        rep.violation(R5, b.name, "halves", "sub-block split does not follow the ETC1 flip rule: (flip, x<2, y<2) = %s picks sub-block %s, specified %s" % bad_sel[0], where)
+    elif undecided:
+        rep.inconc(R5, "sub-block selection not decided on some path: %s" % (undecided[0],))
+        return
     else:
-        rep.violation(R5, b.name, "clamp", "colour + modifier is not (negated by sign, clamped to 0..255): neg=%s mins=%s maxs=%s" % (neg, [fmt(m) for m in mins], [fmt(m) for m in maxs]), where)
+        rep.ok(R5, {"selection_rows": sorted(str(k[:3]) for k in rows), "table_and_colour_agree": True})
+        rep.ok(R5, {"rule": "flip set: rows 0-1 -> sub-block 1; flip clear: columns 0-1 -> sub-block 1"})
+    if bad_sign:
+        rep.violation(R5, b.name, "clamp", "modifier sign: sign bit %s gives %d negation(s) (specified: negated exactly when the bit is 1)" % bad_sign[0], where)
+        return
+    # clamp to [0,255]
+    neg = any(s["k"] == "assign" and s["rv"]["k"] == "un" and s["rv"]["op"] == "Neg" for bi, si, s in b.stmts())
+    # every clamping call in the body, as (lo, hi) bounds on an i32 value: min(c) caps, max(c) floors, clamp(lo, hi) both
+    lo_b, hi_b, odd = [], [], []
+    for bb, t in b.calls():
+        nm = (callee_names(t)[1] or callee_names(t)[0] or "")
+        last = nm.rsplit("::", 1)[-1]
+        if not (nm.endswith("Ord::min") or nm.endswith("Ord::max") or nm.endswith("Ord::clamp")) and last not in ("min", "max", "clamp"):
+            continue
+        if b.local_ty(t["dest"]["l"]) != "i32" or t["dest"]["p"]:
+            continue
+        a = [b.term_of_operand(x) for x in t["args"]]
+        ks = [x[1] if x[0] == "const" and isinstance(x[1], int) else None for x in a[1:]]
+        if last == "min" and len(ks) == 1:
+            (hi_b if ks[0] is not None else odd).append(ks[0])
+        elif last == "max" and len(ks) == 1:
+            (lo_b if ks[0] is not None else odd).append(ks[0])
+        elif last == "clamp" and len(ks) == 2:
+            if None in ks:
+                odd.append(None)
+            else:
+                lo_b.append(ks[0])
+                hi_b.append(ks[1])
+    if neg and len(lo_b) >= 3 and len(hi_b) >= 3 and not odd and all(m == 255 for m in hi_b) and all(m == 0 for m in lo_b):
+        rep.ok(R5, {"modifier": "negated on the sign bit; result clamped to [0, 255]"})
+    elif odd or (not lo_b and not hi_b and any(t["k"] == "switch" for t in (blk["term"] for blk in b.blocks)) and neg and not any(
+            s["k"] == "assign" and s["rv"]["k"] == "cast" and s["rv"].get("ty") == "u8" and s["rv"].get("from") == "i32" and
+            b.term_of_operand(s["rv"]["a"])[0] in ("field", "bin") for bi, si, s in b.stmts())):
+        rep.inconc(R5, "clamping of colour + modifier not recognised (lower %s upper %s)" % (lo_b, hi_b))
+    else:
+        rep.violation(R5, b.name, "clamp", "colour + modifier is not (negated by sign, clamped to 0..255): negated=%s lower bounds=%s upper bounds=%s" % (neg, lo_b, hi_b), where)
 
 
 def coord_name(b, t):
